@@ -513,49 +513,47 @@ Definition rrun (fuel : nat) (ps : list ident) (av : list Z) (b : rblock) : list
   let '(o, _, g) := rexec_block fuel (combine ps (map VI av)) b in (o, final g).
 
 (* ---------------------------------------------------------------- typing (i64 / bool) *)
+(* Types are written with the source names: TyInt is i64, TyBool is bool (TyUnk is never produced).
+   Every integer is taken to be i64 here; when rustc's integer fallback picks i32 instead is the
+   subject of the class Known_C01_int_fallback (C01/Model.v). *)
 
-Inductive rty := RI64 | RBoolT.
-
-Definition rty_eqb (a b : rty) : bool :=
-  match a, b with RI64, RI64 | RBoolT, RBoolT => true | _, _ => false end.
-
-Definition tframe := list (ident * (rty * bool)).      (* name -> (type, declared `mut`) *)
+Definition tframe := list (ident * (ty * bool)).      (* name -> (type, declared `mut`) *)
 Definition tenv := list tframe.
 
-Fixpoint tflookup (x : ident) (f : tframe) : option (rty * bool) :=
+Fixpoint tflookup (x : ident) (f : tframe) : option (ty * bool) :=
   match f with [] => None | (y, v) :: r => if x =? y then Some v else tflookup x r end.
-Fixpoint tlookup (x : ident) (E : tenv) : option (rty * bool) :=
+Fixpoint tlookup (x : ident) (E : tenv) : option (ty * bool) :=
   match E with
   | [] => None
   | f :: r => match tflookup x f with Some v => Some v | None => tlookup x r end
   end.
-Definition tbind (x : ident) (v : rty * bool) (E : tenv) : tenv :=
+Definition tbind (x : ident) (v : ty * bool) (E : tenv) : tenv :=
   match E with [] => [[(x, v)]] | f :: r => ((x, v) :: f) :: r end.
 
-Fixpoint rtype_expr (E : tenv) (e : rexpr) : option rty :=
+Fixpoint rtype_expr (E : tenv) (e : rexpr) : option ty :=
   match e with
-  | RInt n => if in_i64b n then Some RI64 else None
-  | RBool _ => Some RBoolT
-  | RVar x => match tlookup x E with Some (t, _) => Some t | None => None end
-  | RNeg e1 => match rtype_expr E e1 with Some RI64 => Some RI64 | _ => None end
+  | RInt n => if in_i64b n then Some TyInt else None
+  | RBool _ => Some TyBool
+  | RVar x => match tlookup x E with Some (TyUnk, _) => None | Some (t, _) => Some t | None => None end
+  | RNeg e1 => match rtype_expr E e1 with Some TyInt => Some TyInt | _ => None end
   | RNot e1 => rtype_expr E e1
   | RBin o l r =>
       match rtype_expr E l, rtype_expr E r with
       | Some a, Some b =>
           match o with
-          | RAdd | RSub | RMul => match a, b with RI64, RI64 => Some RI64 | _, _ => None end
-          | RAnd | ROr => match a, b with RBoolT, RBoolT => Some RBoolT | _, _ => None end
-          | _ => if rty_eqb a b then Some RBoolT else None
+          | RAdd | RSub | RMul => match a, b with TyInt, TyInt => Some TyInt | _, _ => None end
+          | RAnd | ROr => match a, b with TyBool, TyBool => Some TyBool | _, _ => None end
+          | _ => if ty_eqb a b then Some TyBool else None
           end
       | _, _ => None
       end
   | RCall _ a b =>
-      match rtype_expr E a, rtype_expr E b with Some RI64, Some RI64 => Some RI64 | _, _ => None end
-  | RCast e1 => match rtype_expr E e1 with Some RI64 => Some RI64 | _ => None end
+      match rtype_expr E a, rtype_expr E b with Some TyInt, Some TyInt => Some TyInt | _, _ => None end
+  | RCast e1 => match rtype_expr E e1 with Some TyInt => Some TyInt | _ => None end
   end.
 
-Definition is_i64 (o : option rty) : bool := match o with Some RI64 => true | _ => false end.
-Definition is_boolt (o : option rty) : bool := match o with Some RBoolT => true | _ => false end.
+Definition is_i64 (o : option ty) : bool := match o with Some TyInt => true | _ => false end.
+Definition is_boolt (o : option ty) : bool := match o with Some TyBool => true | _ => false end.
 
 (* [lp]: inside a loop body (break/continue allowed).  Returns the environment after the
    statement (bindings of the current block), or None if rustc would reject. *)
@@ -564,7 +562,7 @@ Fixpoint rtype_stmt (lp : bool) (E : tenv) (s : rstmt) : option tenv :=
   | GLet x m e => match rtype_expr E e with Some t => Some (tbind x (t, m) E) | None => None end
   | GAssign x e =>
       match tlookup x E, rtype_expr E e with
-      | Some (t, true), Some t' => if rty_eqb t t' then Some E else None
+      | Some (t, true), Some t' => if ty_eqb t t' then Some E else None
       | _, _ => None
       end
   | GIf c th el =>
@@ -584,7 +582,7 @@ Fixpoint rtype_stmt (lp : bool) (E : tenv) (s : rstmt) : option tenv :=
   | GLoop b => match rtype_block true ([] :: E) b with Some _ => Some E | None => None end
   | GFor x a z s b =>
       if is_i64 (rtype_expr E a) && is_i64 (rtype_expr E z) && is_i64 (rtype_expr E s) then
-        match rtype_block true ([(x, (RI64, false))] :: E) b with Some _ => Some E | None => None end
+        match rtype_block true ([(x, (TyInt, false))] :: E) b with Some _ => Some E | None => None end
       else None
   | GPrint e => match rtype_expr E e with Some _ => Some E | None => None end
   | GUnit => Some E
@@ -597,7 +595,7 @@ with rtype_block (lp : bool) (E : tenv) (b : rblock) : option tenv :=
   end.
 
 Definition rtype_fn (ps : list ident) (b : rblock) : bool :=
-  match rtype_block false [map (fun p => (p, (RI64, false))) ps] b with Some _ => true | None => false end.
+  match rtype_block false [map (fun p => (p, (TyInt, false))) ps] b with Some _ => true | None => false end.
 
 (* decidable equality of terms: used to define the grouping class by the re-parse itself *)
 Definition rbop_eq_dec (a b : rbop) : {a = b} + {a <> b}.
